@@ -11,7 +11,7 @@ be zero, and the tag status of the entry most recently loaded at V since V last 
 from . import expr as X
 from . import query as Q
 from . import rules_cmp
-from .cfg import eval3
+from .cfg import eval3, implied_atoms
 
 
 def ordered_paths(f, target, limit=6000, max_visits=2):
@@ -54,7 +54,8 @@ def ordered_paths(f, target, limit=6000, max_visits=2):
                 if known is not None and known != (i == 0):
                     continue
                 core, neg = X.strip_bool(B.cond)
-                rec(s, seq + [("c", core, (i == 0) ^ neg)], v2)
+                extra = [("c", c0, t0) for (c0, t0) in implied_atoms(B.cond, i == 0, facts) if c0.id != core.id]
+                rec(s, seq + [("c", core, (i == 0) ^ neg)] + extra, v2)
             else:
                 rec(s, seq, v2)
 
@@ -267,3 +268,108 @@ def check_rollback_index(ck, P, rid):
                 ck.holds(rid, "straggler-test@process_msg", t.where, "straggler iff msg_is_before(%s, newest history entry)" % r["a"], cfg)
         if not ok:
             ck.violated(rid, "straggler-test@process_msg", hs[0].where, "the straggler test is not 'extracted message is before the newest history entry' under the canonical order", cfg)
+
+
+# --------------------------------------------------------------------------------------------------------------
+# the lazy `bound` pre-filter of the straggler test
+# --------------------------------------------------------------------------------------------------------------
+def check_bound_prefilter(ck, P, rid):
+    """process_msg tests `bound >= msg->dest_t` before the (costlier) comparator.  The filter is sound only if it is
+    implied by msg_is_before(msg, newest entry): that needs (a) non-strictness — equal timestamps can still be ordered
+    by the tie-break — and (b) bound >= timestamp of the newest history entry at all times."""
+    from .rules_fossil import relation_on_paths
+    cfg = P.config
+    f = P.fn("process_msg")
+    hs = list(f.calls("handle_straggler_msg"))
+    if len(hs) != 1:
+        ck.inconclusive(rid, "bound-filter@process_msg", f.where, "expected one handle_straggler_msg call", cfg)
+        return
+    is_bound = lambda n: n.k == "MemberExpr" and n.name == "bound" and n.rec == "process_ctx"
+    is_ts = lambda n: n.k == "MemberExpr" and n.name == "dest_t" and n.rec == "lp_msg"
+    uses = [n for n in f.walk() if is_bound(n) and Q.access_kind(n) == "read"]
+    paths, complete = Q.path_conditions(f, hs[0])
+    # collect the comparisons bound ? dest_t inside (possibly joined) conditions on the paths
+    atoms = []
+    for conds in paths:
+        for core, t in conds:
+            for name, node in Q.formula_atoms(core):
+                c = X.strip(node)
+                if c.k == "BinaryOperator" and c.op in ("<", "<=", ">", ">=", "==", "!="):
+                    l, r = X.strip(c.children[0]), X.strip(c.children[1])
+                    if (is_bound(l) and is_ts(r)) or (is_bound(r) and is_ts(l)):
+                        op = c.op if is_bound(l) else {"<": ">", ">": "<", "<=": ">=", ">=": "<=", "==": "==", "!=": "!="}[c.op]
+                        atoms.append((name, node, op))
+    inst = "bound-filter@process_msg"
+    if not atoms:
+        ck.holds(rid, inst, hs[0].where, "no timestamp pre-filter before the comparator", cfg)
+    else:
+        # under which relations (bound ? dest_t) can the rollback be reached?  enumerate models of every path
+        reach = set()
+        for conds in paths:
+            models, ats = Q.path_models(conds)
+            if models is None:
+                ck.inconclusive(rid, inst, hs[0].where, "straggler guard too large to enumerate", cfg)
+                return
+            for m in models:
+                for rel in "<=>":
+                    okrel = True
+                    for name, node, op in atoms:
+                        if name in m:
+                            sat = rel in {"<": "<", "<=": "<=", ">": ">", ">=": ">=", "==": "=", "!=": "<>"}[op]
+                            if sat != m[name]:
+                                okrel = False
+                    if okrel:
+                        reach.add(rel)
+        if "=" in reach and ">" in reach:
+            ck.holds(rid, inst, atoms[0][1].where, "the rollback is reachable for bound >= timestamp (relations %s): equal timestamps go on to the tie-break" % "".join(sorted(reach)), cfg)
+        else:
+            ck.violated(rid, inst, atoms[0][1].where, "the pre-filter `%s` admits only bound %s timestamp: a message with the SAME timestamp as the newest processed event that the tie-break orders before it is appended without a rollback" % (
+                atoms[0][0], "/".join(sorted(reach)) or "(nothing)"), cfg)
+    # (b) writers of bound
+    n = 0
+    for g, node, kind in Q.field_accesses(P, "process_ctx", "bound"):
+        if kind not in ("write", "rmw-plain"):
+            continue
+        n += 1
+        asg = node.parent
+        while asg is not None and not (asg.k in ("BinaryOperator", "CompoundAssignOperator")):
+            asg = asg.parent
+        rhs = X.strip(asg.children[1])
+        inst2 = "bound-writer@%s:%s" % (g.name, X.show(rhs)[:40])
+        if is_ts(rhs):
+            # must be the timestamp of the entry pushed on the same path
+            pushes = [s for s in g.walk() if s.k == "StmtExpr" and s.macros and s.macros[0] == "array_push" and "p_msgs" in (s.d.get("mcall") or "")]
+            src = X.show(rhs.children[0])
+            okp = False
+            for pu in pushes:
+                st = [x for x in pu.walk() if x.k == "BinaryOperator" and x.op == "=" and X.strip(x.children[0]).k == "ArraySubscriptExpr"]
+                if st and X.show(st[0].children[1]) == src and (g.cfg.dominates(asg, st[0]) or g.cfg.dominates(st[0], asg)):
+                    okp = True
+            if okp:
+                ck.holds(rid, inst2, asg.where, "bound = timestamp of the event appended to the history on the same path", cfg)
+            else:
+                ck.violated(rid, inst2, asg.where, "bound is set to %s, which is not the timestamp of the event appended to the history" % X.show(rhs), cfg)
+        elif rhs.k == "ConditionalOperator":
+            cnd, a, b = rhs.children
+            va, vb = X.const_float(a), X.const_float(b)
+            keep = [x for x in (X.strip(a), X.strip(b)) if is_bound(x)]
+            neg = [v for v in (va, vb) if v is not None]
+            empty = "count == 0" in X.show(cnd)
+            if keep and neg and empty and ((va is not None and va < 0) or (vb is not None and vb < 0)):
+                # the negative constant must be on the "history is empty" side
+                side_empty = a if True else b
+                if va is not None and va < 0:
+                    ck.holds(rid, inst2, asg.where, "bound lowered below every timestamp only when the history is empty, else kept", cfg)
+                else:
+                    ck.violated(rid, inst2, asg.where, "bound is lowered while the history is NOT empty", cfg)
+            else:
+                ck.inconclusive(rid, inst2, asg.where, "bound update %s not recognised" % X.show(rhs)[:80], cfg)
+        elif X.const_float(rhs) is not None:
+            v = X.const_float(rhs)
+            if g.name == "process_lp_init" and v >= 0.0:
+                ck.holds(rid, inst2, asg.where, "initial bound %s >= timestamp 0 of LP_INIT" % v, cfg)
+            else:
+                ck.violated(rid, inst2, asg.where, "bound is set to the constant %s in %s: it may fall below the newest processed event's timestamp and hide stragglers" % (v, g.name), cfg)
+        else:
+            ck.inconclusive(rid, inst2, asg.where, "bound update %s not recognised" % X.show(rhs)[:80], cfg)
+    ck.expect(rid, n, 4, "writers of process_ctx.bound")
